@@ -309,6 +309,26 @@ impl Model for M {
     }
     fn step(&self, init: &Init, s: &St, a: &Act, obs: &mut Obs) -> St {
         let (real, log, boxes) = if init.native { run_real_native(init, s, a) } else { run_real_default(init, s, a) };
+        // the parent may consume the iterators the adapters hand it in any way (finite streams only; from the blank
+        // native initial states, whose pixel map plays no role here)
+        let finite = |o: &Op| matches!(o, Op::Iter(_)) || matches!(o, Op::Contig { len, .. } if *len >= 0);
+        if init.native && !init.prefilled && finite(&a.op) && a.then.as_ref().map_or(true, finite) {
+            use egverif::proto::{compare_runs, ProtoTarget, MODES};
+            let ops: Vec<Op> = std::iter::once(a.op.clone()).chain(a.then.clone()).collect();
+            let run = |mode: u8| {
+                let mut t = ProtoTarget::<Gray8>::with_box(mode, r(&init.parent_box));
+                let mut boxes = vec![];
+                ga3(&mut t, &a.stack, &ops, &mut boxes);
+                t.calls
+            };
+            let reference = run(0);
+            obs.class("parent-consumes-in-every-way");
+            for (way, mode) in MODES.iter().skip(1) {
+                if !compare_runs("operation through the adapter stack", &reference, &run(*mode), way, *mode, obs) {
+                    break;
+                }
+            }
+        }
         let c = compose(&init.parent_box, &a.stack);
         // expected state
         let mut exp = s.map.clone();
@@ -552,7 +572,7 @@ fn main() {
         assumptions: &["Rectangle::intersection/translate are used by the model as trusted primitives (C16 decides them)", "bounded to the listed adapters, operations and history depth"],
         parts: |_| vec![PartSpec::new("single", "verif"), PartSpec::new("nested3", "verif"), PartSpec::new("histories", "verif")],
         run_part,
-        required_classes: |_| vec!["clip-cuts-operation", "clip-removes-everything", "colour-converted", "nested", "no-adapter", "short-stream", "endless-stream", "cropped", "translated", "clear", "trait-default-fill", "empty-parent-box", "two-operations-through-one-adapter-instance"],
+        required_classes: |_| vec!["parent-consumes-in-every-way", "clip-cuts-operation", "clip-removes-everything", "colour-converted", "nested", "no-adapter", "short-stream", "endless-stream", "cropped", "translated", "clear", "trait-default-fill", "empty-parent-box", "two-operations-through-one-adapter-instance"],
         crash_is_verdict: false,
     })
 }
